@@ -31,6 +31,7 @@ import (
 	"math"
 	"math/big"
 	"sort"
+	"strconv"
 	"strings"
 
 	"github.com/samber/lo"
@@ -370,6 +371,14 @@ func init() {
 							script[i].V = g.Range(-3, 3)
 						}
 					}
+				} else if g.Bool(0.15) {
+					// the zero value of the element type is a value like any other ("no value yet" must not be
+					// encoded as 0 anywhere)
+					for i := range script {
+						if script[i].K == "N" && g.Bool(0.5) {
+							script[i].V = 0
+						}
+					}
 				}
 				sc.Sources = []SrcSpec{{Mode: g.Pick("sync", "sync", "sync", "async"), Script: script}}
 				addStage(g, sc, name, nvalues(script), "sync")
@@ -392,6 +401,13 @@ func init() {
 			for {
 				sc := &Scn{Family: "C04.chain"}
 				script := c04Script(g)
+				if g.Bool(0.1) {
+					for i := range script {
+						if script[i].K == "N" && g.Bool(0.5) {
+							script[i].V = 0 // the zero value is a value like any other
+						}
+					}
+				}
 				sc.Sources = []SrcSpec{{Mode: g.Pick("sync", "sync", "sync", "async"), Script: script}}
 				n := g.PickInt(2, 2, 3, 3, 4)
 				for i := 0; i < n; i++ {
@@ -1050,14 +1066,35 @@ var c04VarFams = []*c04VarFam{
 		toAny := func(s []ro.Observable[int]) []ro.Observable[any] {
 			out := make([]ro.Observable[any], len(s))
 			for i := range s {
-				out[i] = ro.Map(func(x int) any { return x })(s[i])
+				// the element type is an interface: consecutive values of one source differ in dynamic type,
+				// and one of them is the nil interface value
+				out[i] = ro.Map(func(x int) any {
+					switch {
+					case x == 2:
+						return nil
+					case x%3 == 0:
+						return int64(x)
+					case x%3 == 1:
+						return strconv.Itoa(x)
+					}
+					return x
+				})(s[i])
 			}
 			return out
 		}
 		anys2i := func(a []any) int {
 			v := make([]int, len(a))
 			for i := range a {
-				v[i], _ = a[i].(int)
+				switch t := a[i].(type) {
+				case nil:
+					v[i] = 2
+				case int64:
+					v[i] = int(t)
+				case string:
+					v[i], _ = strconv.Atoi(t)
+				case int:
+					v[i] = t
+				}
 			}
 			return sl2i(v)
 		}
